@@ -8,6 +8,7 @@ from .common import HarnessError
 
 BIG = 1.0e9
 MAX_EVENTS_PER_INSTANT = 20000
+MAX_LEDGER = 60000
 
 
 class ValueSource:
@@ -36,7 +37,7 @@ class ValueSource:
         if self.kind == "const":
             return self.values[0]
         if self.kind == "callable":
-            return self.next_value
+            return lambda: self.next_value()     # late binding: oracles may wrap next_value
 
         def gen():
             while True:
@@ -112,6 +113,8 @@ class FactoryRun:
         self.pending = []
         self.crashed = None
         self.livelock = False
+        self.runaway = False
+        self.probes = []
         self.build_error = None
         self.T = spec.get("T", 20.0)
         self.events_this_instant = 0
@@ -200,7 +203,33 @@ class FactoryRun:
     def edge_store(self, edge):
         return getattr(edge, "inbuiltstore", None) or getattr(edge, "belt", None)
 
+    def wrap_probe(self, eid, edge):
+        """record every can_put() a node makes: (t, k, edge, answer, ledger-room at that very moment)"""
+        if not hasattr(edge, "can_put"):
+            return
+        run = self
+        orig = edge.can_put
+
+        def can_put():
+            room = None
+            try:
+                cap = run.edge_capacity(eid)
+                held = len(run.edge_items(eid))
+                g = sum(1 for t in run.toks.values() if t.edge == eid and t.side == "p" and t.state == "granted")
+                room = cap - held - g
+            except Exception:
+                pass
+            r = orig()
+            rec = (run.env.now, run.k, eid, r, room, run.env.active_process)
+            run.probes.append(rec)
+            for o in run.oracles:
+                if hasattr(o, "on_probe"):
+                    o.on_probe(run, rec)
+            return r
+        edge.can_put = can_put
+
     def wrap_store(self, eid, edge):
+        self.wrap_probe(eid, edge)
         store = self.edge_store(edge)
         if store is None:
             return
@@ -379,6 +408,9 @@ class FactoryRun:
             self.poll()
             for o in self.oracles:
                 o.after_kernel_event(self)
+            if len(self.ledger) > MAX_LEDGER:
+                self.runaway = True      # deterministic size guard (e.g. a mutant that loops while yielding)
+                break
             if self.events_this_instant > MAX_EVENTS_PER_INSTANT:
                 self.livelock = True
                 for o in self.oracles:
